@@ -1,6 +1,6 @@
 SPECIFICATION TraceSpec
 CONSTANTS
-  NormBug = TRUE
+  NormBug = FALSE
   RootCheck = TRUE
 POSTCONDITION TraceDone
 CHECK_DEADLOCK FALSE
